@@ -45,7 +45,7 @@ theorem unreplaced_unchanged (st : VarState) (name : String) (t : GoType) (varia
        let ts := typeString (qualifierOf imps) t
        let scope2 := scope1.addName ts
        { reg := reg', scope := scope2,
-         vars := st.vars ++ [⟨scope2.suggest (varName name t), ts, nillable t, isSlice t, variadic⟩] }) := rfl
+         vars := st.vars ++ [⟨scope2.suggest (varName name t), ts, nillable t, isSlice t, variadic, typeRefs (qualifierOf imps) t⟩] }) := rfl
 
 /-- **The original package is imported only if it is still referenced**: a package is in the
 file's import registry after a variable was added only if it was there before or the type that was
